@@ -142,13 +142,12 @@ def plainTy : Ty → Bool
 
 mutual
 /-- every struct type is the type of a field, or sits behind exactly one pointer or one slice of a field
-    (what `isStructishTypedField` recurses into); sets are field types; no `[]time.Time` field; no field carries
+    (what `isStructishTypedField` recurses into); sets are field types; no field carries
     the format's own tag with an empty value (`json:""` would shadow the copied tag) -/
 def reachTy (fmt : Fmt) : Ty → Bool
   | .struct fs => reachFields fmt fs
   | .ptr (.struct fs) => reachFields fmt fs
   | .slice (.struct fs) => reachFields fmt fs
-  | .slice (.text .time) => false
   | .set => true
   | t => plainTy t
 def reachFields (fmt : Fmt) : Fields → Bool
@@ -346,6 +345,10 @@ end
 def msType : Ty :=
   .struct (.cons "MS" false [("dials", "ms")]
     (.map (.struct (.cons "Y" false [("dials", "why")] (.scalar .str) .nil))) .nil)
+
+/-- `struct{ LT []time.Time \`dials:"lt"\` }` (finding D34, repaired: the element type is a text leaf) -/
+def sliceTimeTy : Ty :=
+  .struct (.cons "LT" false [("dials", "lt")] (.slice (.text .time)) .nil)
 
 /-- a pointerified config type with a format-specific tag, a duration, a set and a nested struct -/
 def exTy : Ty :=
